@@ -19,7 +19,7 @@ import (
 	"github.com/flamego/flamego/verifharness/internal/evid"
 )
 
-const rule = "case = request method in {GET, HEAD, POST, head} x an underlying writer (with or without http.Flusher) x a history of 1..14 operations over {WriteHeader(100..999), Write / io.WriteString of 0..64 bytes (optionally cut short by the underlying writer with an error), Flush, Before(hook)}; hooks set a header, read Status()/Written() and log themselves. " +
+const rule = "case = request method in {GET, HEAD, POST, head} x an underlying writer (with or without http.Flusher, with or without io.ReaderFrom) x a history of 1..14 operations over {WriteHeader(100..999), Write / io.WriteString / io.Copy of 0..64 bytes (optionally cut short by the underlying writer with an error), Flush, Before(hook)}; hooks set a header, read Status()/Written() and log themselves. " +
 	"Oracle: a state-machine model written from the statement, compared after every step (Status, Written, Size, return values of Write) together with invariants over the log of calls the underlying writer received (<=1 WriteHeader, before every Write/Flush; hooks registered before the trigger ran exactly once, in reverse order, before that WriteHeader, and saw Status()==0; later hooks never run). " +
 	"non-trivial = a history with >=2 hooks and a trigger, or a second WriteHeader / an implicit 200, or a body write on HEAD, or a short write; distinct by case text"
 
@@ -31,7 +31,7 @@ var assumptions = []string{
 func TestMain(m *testing.M) { evid.Main(m, "C13", rule, assumptions) }
 
 type Op struct {
-	K     string `json:"op"` // wh | w | ws (io.WriteString) | f | before
+	K     string `json:"op"` // wh | w | ws (io.WriteString) | cp (io.Copy from a plain reader) | f | before
 	V     int    `json:"v,omitempty"`
 	Short int    `json:"short,omitempty"` // w: the underlying writer accepts only V-Short bytes and errors (when >0)
 }
@@ -39,7 +39,10 @@ type Op struct {
 type Case struct {
 	Method  string `json:"method"`
 	Flusher bool   `json:"flusher"`
-	Ops     []Op   `json:"ops"`
+	// ReaderFrom: the underlying writer also implements io.ReaderFrom (as
+	// net/http's own response writer does).
+	ReaderFrom bool `json:"reader_from,omitempty"`
+	Ops        []Op `json:"ops"`
 }
 
 // spy is the underlying writer.
@@ -74,13 +77,39 @@ type flushSpy struct{ *spy }
 
 func (s flushSpy) Flush() { s.log = append(s.log, "F") }
 
+// readFromSpy / readFromFlushSpy add io.ReaderFrom to the underlying writer.
+type readFromSpy struct{ *spy }
+
+func (s readFromSpy) ReadFrom(r io.Reader) (int64, error) { return s.spy.readFrom(r) }
+
+type readFromFlushSpy struct{ flushSpy }
+
+func (s readFromFlushSpy) ReadFrom(r io.Reader) (int64, error) { return s.spy.readFrom(r) }
+
+func (s *spy) readFrom(r io.Reader) (int64, error) {
+	data, err := io.ReadAll(r)
+	s.body += len(data)
+	s.log = append(s.log, fmt.Sprintf("W %d", len(data)))
+	return int64(len(data)), err
+}
+
+// plainReader hides every optional interface of the reader it wraps.
+type plainReader struct{ r io.Reader }
+
+func (p plainReader) Read(b []byte) (int, error) { return p.r.Read(b) }
+
 var errShort = errors.New("short write")
 
 func checkCase(c Case) (out evid.Outcome) {
 	s := &spy{h: http.Header{}}
 	var under http.ResponseWriter = s
-	if c.Flusher {
+	switch {
+	case c.Flusher && c.ReaderFrom:
+		under = readFromFlushSpy{flushSpy{s}}
+	case c.Flusher:
 		under = flushSpy{s}
+	case c.ReaderFrom:
+		under = readFromSpy{s}
 	}
 	w := flamego.NewResponseWriter(c.Method, under)
 
@@ -117,7 +146,9 @@ func checkCase(c Case) (out evid.Outcome) {
 			}
 			trigger(op.V)
 			w.WriteHeader(op.V)
-		case "w", "ws":
+		case "w", "ws", "cp":
+			wasWritten, triggeredBefore, wantRunsBefore := mStatus != 0, triggered, append([]int(nil), wantRuns...)
+			_, _, _ = wasWritten, triggeredBefore, wantRunsBefore
 			if mStatus == 0 {
 				second = true // implicit 200
 			}
@@ -140,7 +171,21 @@ func checkCase(c Case) (out evid.Outcome) {
 			}
 			var n int
 			var err error
-			if op.K == "ws" {
+			if op.K == "cp" {
+				// a body streamed with io.Copy from a source without WriterTo
+				var n64 int64
+				n64, err = io.Copy(w, plainReader{strings.NewReader(strings.Repeat("c", op.V))})
+				n = int(n64)
+				if c.Method == http.MethodHead && err == nil {
+					n = op.V // io.Copy reports what it handed over
+				}
+				if op.V == 0 {
+					// nothing to copy: io.Copy never calls the writer, so nothing is triggered
+					if !wasWritten {
+						mStatus, triggered, wantRuns = 0, triggeredBefore, wantRunsBefore
+					}
+				}
+			} else if op.K == "ws" {
 				// strings travel through io.WriteString, which uses a WriteString
 				// method when the writer has one
 				n, err = io.WriteString(w, strings.Repeat("s", op.V))
@@ -259,8 +304,9 @@ func js(v interface{}) string {
 
 func genCase(t *rapid.T) Case {
 	c := Case{
-		Method:  []string{"GET", "HEAD", "POST", "head", "GET", "HEAD"}[rapid.IntRange(0, 5).Draw(t, "method")],
-		Flusher: rapid.Bool().Draw(t, "flusher"),
+		Method:     []string{"GET", "HEAD", "POST", "head", "GET", "HEAD"}[rapid.IntRange(0, 5).Draw(t, "method")],
+		Flusher:    rapid.Bool().Draw(t, "flusher"),
+		ReaderFrom: rapid.Bool().Draw(t, "readerfrom"),
 	}
 	n := rapid.IntRange(1, 14).Draw(t, "nops")
 	hook := 0
@@ -269,8 +315,11 @@ func genCase(t *rapid.T) Case {
 		case k < 2:
 			c.Ops = append(c.Ops, Op{K: "wh", V: rapid.IntRange(100, 999).Draw(t, "code")})
 		case k < 5:
-			op := Op{K: []string{"w", "w", "ws"}[rapid.IntRange(0, 2).Draw(t, "wk")], V: rapid.IntRange(0, 64).Draw(t, "n")}
-			if rapid.IntRange(0, 5).Draw(t, "short") == 0 && op.V > 0 {
+			op := Op{K: []string{"w", "w", "ws", "cp"}[rapid.IntRange(0, 3).Draw(t, "wk")], V: rapid.IntRange(0, 64).Draw(t, "n")}
+			if op.K == "cp" && op.V == 0 {
+				op.V = 1
+			}
+			if op.K != "cp" && rapid.IntRange(0, 5).Draw(t, "short") == 0 && op.V > 0 {
 				op.Short = rapid.IntRange(1, op.V).Draw(t, "cut")
 			}
 			c.Ops = append(c.Ops, op)
